@@ -36,7 +36,8 @@ type respSpec struct {
 	Gzip       bool        `json:"gzip,omitempty"`
 	CloseAfter int         `json:"close_after,omitempty"` // h1: read that many body bytes, then close the connection without answering
 	ReadOnly   int         `json:"read_only,omitempty"`
-	Early103   bool        `json:"early_103,omitempty"` // h2/h3 handler: a 103 Early Hints block before the final one   // h2/h3 handler: read that many body bytes, answer, return
+	Early103   bool        `json:"early_103,omitempty"`
+	Trailers   [][2]string `json:"trailers,omitempty"` // h1 chunked: trailer fields after the last chunk // h2/h3 handler: a 103 Early Hints block before the final one   // h2/h3 handler: read that many body bytes, answer, return
 	body       []byte      // entity bytes on the wire
 }
 
@@ -51,6 +52,9 @@ func (s respSpec) raw(method string) []byte {
 		fmt.Fprintf(&b, "Content-Length: %d\r\n", len(s.body))
 	case "chunked":
 		b.WriteString("Transfer-Encoding: chunked\r\n")
+		for _, t := range s.Trailers {
+			fmt.Fprintf(&b, "Trailer: %s\r\n", t[0])
+		}
 	case "close":
 		b.WriteString("Connection: close\r\n")
 	}
@@ -82,7 +86,11 @@ func (s respSpec) raw(method string) []byte {
 			b.WriteString("\r\n")
 		}
 		if s.Truncate == 0 {
-			b.WriteString("0\r\n\r\n")
+			b.WriteString("0\r\n")
+			for _, t := range s.Trailers {
+				fmt.Fprintf(&b, "%s: %s\r\n", t[0], t[1])
+			}
+			b.WriteString("\r\n")
 		}
 	} else {
 		b.Write(body)
@@ -269,6 +277,7 @@ type exSpec struct {
 	ReadBuf  int         `json:"read_buf"`
 	Retry    bool        `json:"retry,omitempty"`
 	Clone    bool        `json:"clone,omitempty"`      // the exchange runs on client.Clone(); the original's dump is switched off first
+	After    bool        `json:"after,omitempty"`      // a plain GET without dumper of its own follows on the same client
 	Warm     bool        `json:"warm_up,omitempty"`    // a GET with its own request-level dumper goes first on the same client / connection
 	WantErr  bool        `json:"want_error,omitempty"` // the scripted exchange ends in an error (reset upload)
 	Abort    string      `json:"abort,omitempty"`      // "h1-close" | "h3-partial": the upload breaks off at an amount the client decides
@@ -350,6 +359,10 @@ func genResp(rng *hk.Rand, method string) (respSpec, string) {
 		shape += "+304"
 	case 2, 3:
 		s.Framing = "chunked"
+		if rng.Chance(25) {
+			s.Trailers = [][2]string{{"X-Checksum", "abc123"}, {"X-Trail", "t"}}
+			shape += "+trailers"
+		}
 		k := rng.Range(1, 4)
 		for i := 0; i < k; i++ {
 			s.Chunks = append(s.Chunks, rng.Range(1, 1+n))
@@ -441,6 +454,10 @@ func genExchange(rng *hk.Rand) exSpec {
 		e.Clone = true
 		shape += "+clone"
 	}
+	if rng.Chance(15) {
+		e.After = true
+		shape += "+after"
+	}
 	if e.ReadBuf != 0 {
 		shape += fmt.Sprintf("+rb%d", e.ReadBuf)
 	}
@@ -454,12 +471,18 @@ func genExchange(rng *hk.Rand) exSpec {
 // warmResp: what the origins answer to the warm-up request
 var warmResp = respSpec{Status: 200, Framing: "cl", Headers: [][2]string{{"X-Warm", "1"}, {"Content-Type", "text/plain; charset=utf-8"}}, body: []byte("warm-ok"), BodyLen: 7}
 
+var afterResp = respSpec{Status: 200, Framing: "cl", Headers: [][2]string{{"X-After", "1"}, {"Content-Type", "text/plain; charset=utf-8"}}, body: []byte("after-ok"), BodyLen: 8}
+
 // scriptResps: the responses the origin serves for one run, in order
 func scriptResps(ex exSpec) []respSpec {
+	rs := ex.Resps
 	if ex.Warm {
-		return append([]respSpec{warmResp}, ex.Resps...)
+		rs = append([]respSpec{warmResp}, rs...)
 	}
-	return ex.Resps
+	if ex.After {
+		rs = append(append([]respSpec(nil), rs...), afterResp)
+	}
+	return rs
 }
 
 // ---------- running one side of a pair ----------
@@ -516,9 +539,14 @@ func mkResult(resp *req.Response, err error) callRes {
 				cr.Header = append(cr.Header, k+": "+v)
 			}
 		}
-		sort.Strings(cr.Header)
 		cr.Body = resp.Bytes()
 		cr.BodyN = len(cr.Body)
+		for k, vs := range resp.Trailer { // filled in once the body has been read
+			for _, v := range vs {
+				cr.Header = append(cr.Header, "(trailer) "+k+": "+v)
+			}
+		}
+		sort.Strings(cr.Header)
 	}
 	return cr
 }
@@ -702,6 +730,16 @@ func runClient(c *req.Client, url string, ex exSpec, id string, cfg *dumpCfg, wc
 			}
 		}()
 		resp, err := rq.Send(ex.Method, url)
+		if ex.After && err == nil {
+			// the main request's dumper must see nothing of what follows on the same client
+			ar := c.R().SetHeader("X-Case", id)
+			ar.SetContext(httptrace.WithClientTrace(context.Background(), &httptrace.ClientTrace{
+				WroteRequest: func(httptrace.WroteRequestInfo) { wc.wrote() },
+			}))
+			if r2, e2 := ar.Get(strings.Replace(warmURL(url), "/warm", "/after", 1)); e2 == nil && r2 != nil {
+				r2.Bytes()
+			}
+		}
 		ch <- rr{resp, err}
 	}()
 	var got rr
@@ -1027,8 +1065,15 @@ func h1PairsGen(r *hk.Run, rng *hk.Rand, count int, gen func(*hk.Rand) exSpec) {
 			if ex.Warm && k == 0 {
 				method, final = "GET", false
 			}
+			isAfter := ex.After && k == len(resps)-1 && len(obOn) == len(resps)
+			if isAfter {
+				method, final = "GET", false
+			} else if ex.After && len(obOn) == len(resps) && k == len(resps)-2 {
+				final = true
+			}
 			p := h1PartsOf(ob, resps[k], method, on.Res.Body, final, on.Res.Err)
 			p.parts.Warm = ex.Warm && k == 0
+			p.parts.After = isAfter
 			xs = append(xs, p.parts)
 			hps = append(hps, p)
 			pl.add(p.hdr)
@@ -1071,7 +1116,7 @@ func h1PairsGen(r *hk.Run, rng *hk.Rand, count int, gen func(*hk.Rand) exSpec) {
 			failOnce(r, hk.Failure{Sig: "faithful:" + which + ":" + sigBase, What: "content of a dump writer is not exactly the selected parts routed to it", Input: in, Got: g, Want: w})
 		}
 		nt := cfg.anyOn() && (ex.BodyLen > 0 || ex.Resps[len(ex.Resps)-1].BodyLen > 0 || len(ex.Resps) > 1 || strings.Contains(ex.Shape, "longhdr") || ex.ReadBuf != 0)
-		emitExch(r, cfg, coqX, ex.Warm, on.Sink, pl, map[string]interface{}{"kind": "h1", "exchange": ex, "dump": cfg}, "h1|"+keyOf(in), nt)
+		emitExch(r, cfg, coqX, xs, on.Sink, pl, map[string]interface{}{"kind": "h1", "exchange": ex, "dump": cfg}, "h1|"+keyOf(in), nt)
 	}
 }
 
